@@ -21,6 +21,7 @@ from harness import k1trace
 # bits of the code the Coq side returns for a trace (0 = everything agrees)
 B_ACCEPT, B_UNDO_INC, B_STORED, B_UNDO, B_STATE, B_SC1, B_SC2, B_MUNDO, B_MREDO, B_NOTHM, B_LAWS = 1, 2, 4, 8, 16, 32, 64, 128, 256, 512, 1024
 B_MUNDO_DATA, B_MREDO_DATA = 2048, 4096
+B_NOTHM2 = 8192   # outside the stage-2 class (bundle_ok2); informational
 CODE_DEF = '''
 Definition b2z (b : bool) (k : Z) : Z := if b then 0 else k.
 Definition trace_code (tr : trace TT) : Z :=
@@ -28,7 +29,8 @@ Definition trace_code (tr : trace TT) : Z :=
   let ur := undo_redo_code TT tr in
   b2z (w_accepted w) 1 + b2z (w_undo_inc w) 2 + b2z (w_stored w) 4 + b2z (w_undo w) 8 + b2z (w_state w) 16 +
   b2z (w_sc1 w) 32 + b2z (w_sc2 w) 64 + ur +
-  b2z (bundle_ok2 OO (state_of_snapshot TT (tr_start tr)) (map fst (tr_events tr))) 512 +
+  b2z (bundle_ok3 OO (state_of_snapshot TT (tr_start tr)) (map fst (tr_events tr))) 512 +
+  b2z (bundle_ok2 OO (state_of_snapshot TT (tr_start tr)) (map fst (tr_events tr))) 8192 +
   b2z (laws_monitor TT tr) 1024.
 '''
 
@@ -578,6 +580,17 @@ def focused_search(kinds, prop, limit=4):
       mains = []
       if 'RemoveColumn' in kinds:
         mains.append([['RemoveColumn', 'T', col]])
+      if 'RemoveColumn' in kinds and col == 'A':
+        # a data column WITH a formula created, edited and removed in the same bundle
+        for info in ({'type': 'Text', 'isFormula': False, 'formula': '"c"'},
+                     {'type': 'Int', 'isFormula': False, 'formula': '$B * 7', 'recalcWhen': 2},
+                     {'type': 'Any', 'isFormula': True, 'formula': '$B + 1'}):
+          mains.append([['AddColumn', 'T', 'C', info], ['RemoveColumn', 'T', 'C']])
+          if not info['isFormula']:
+            mains.append([['AddColumn', 'T', 'C', info], ['UpdateRecord', 'T', 2, {'C': 'q' if info['type'] == 'Text' else 5}],
+                          ['RemoveColumn', 'T', 'C']])
+            mains.append([['AddColumn', 'T', 'C', info], ['UpdateRecord', 'T', 2, {'C': 'q' if info['type'] == 'Text' else 5}],
+                          ['RenameColumn', 'T', 'C', 'C2'], ['RemoveColumn', 'T', 'C2']])
       if 'RenameColumn' in kinds:
         mains.append([['RenameColumn', 'T', col, 'q7']])
         mains.append([['RenameColumn', 'T', col, 'q7'], ['RemoveColumn', 'T', 'q7']])
@@ -620,7 +633,7 @@ def own_hash():
   h = hashlib.sha1()
   h.update(histrun.tree_hash().encode())
   for p in ('harness/k1trace.py', 'harness/k1check.py', 'coq/theories/Model/ActionLog.v',
-            'coq/theories/Model/ActionLogEnc.v'):
+            'coq/theories/Model/ActionLogEnc.v', 'coq/theories/Proofs/ActionLog_stage3.v'):
     with open(os.path.join(core.VERIF, p), 'rb') as f:
       h.update(f.read())
   return h.hexdigest()[:16]
@@ -727,7 +740,8 @@ def _traced_run(ctx, n_hist, nb):
           kinds = sorted({evt[0] if evt[0] != 'doc' else evt[1][0] for evt in tr['events']})
           pend = pending_structure(tr['events'])
           metas.append({'bundle': bundle, 'history': copy.deepcopy(history), 'kinds': kinds, 'pending': pend,
-                        'n_events': len(tr['events'])})
+                        'n_events': len(tr['events']),
+                        'shape': [evt[0] if evt[0] != 'doc' else evt[1][0] for evt in tr['events']]})
           traced = True
           if len(samples) < 4:
             samples.append({'bundle': bundle, 'events': [short_event(x) for x in tr['events'][:12]]})
@@ -835,9 +849,10 @@ def eval_z(ctx, name, imports, fn, cases, shard=40, extra_defs='', timeout=900):
 
 def eval_codes(ctx, I, terms):
   """code per trace: bits 1..256 = disagreements (see B_*), bit 512 = the hypotheses of the proved theorem
-  (bundle_ok2: doc actions, then calc deltas, then the flush; lossless; SC2) do NOT hold for this trace."""
+  (bundle_ok3: doc actions, then calc deltas interleaved with the supported doc actions, then the flush; lossless;
+  SC2) do NOT hold for this trace; bit 8192 = outside the narrower stage-2 class bundle_ok2."""
   if not terms:
     return []
   defs = I.defs() + CODE_DEF
-  return eval_z(ctx, 'k1', k1trace.IMPORTS + ['Grist.Proofs.ActionLog_proofs', 'Grist.Proofs.ActionLog_calc'],
+  return eval_z(ctx, 'k1', k1trace.IMPORTS + ['Grist.Proofs.ActionLog_proofs', 'Grist.Proofs.ActionLog_calc', 'Grist.Proofs.ActionLog_stage3'],
                 'trace_code', terms, shard=40, extra_defs=defs)
